@@ -683,7 +683,7 @@ inline uint StringDictionaryRPFC::decodeSymbol(uint *symbol, uchar *ptr,
 
 inline uint StringDictionaryRPFC::decodeString(uchar *str, uint *strLen,
                                                uchar **ptr, uint *offset) {
-  uchar *vb = new uchar[maxlength];
+  uchar *vb = new uchar[maxlength + 5]; // a whole coded string may land here: VByte + suffix + closing symbol
   uint read = 0;
 
   uint rule;
